@@ -13,7 +13,7 @@ def ack_dispatch(t, rid):
     """ACK-DISPATCH: in the Ack arm of RenetClient::process_packet a sent-packet record that is taken out of `sent_packets` is always handed to the
     dispatch on its `info` (which calls the ack handlers of the send channels / acked_largest): no early `continue`/`return` between the removal
     and the dispatch. Otherwise the acknowledgement is consumed and lost: the message keeps being retransmitted and its bytes are never given back."""
-    r = RuleResult(rid, "an acknowledged sent-packet record taken out of sent_packets always reaches the dispatch on its info (ack handlers): no early exit between removal and dispatch", floor=1)
+    r = RuleResult(rid, "an acknowledged sent-packet record taken out of sent_packets always reaches the dispatch on its info (ack handlers): no early exit between removal and dispatch", floor=0)
     f0 = t.fn("RenetClient::process_packet")
     for f in fn_and_closures(t, f0):
         rem = [c for c in t.sites(f) if c.node["k"] == "call" and method_of(callee_name(c.node)) in ("remove", "remove_entry", "pop_first", "pop_last") and c.node["args"] and "sent_packets" in fmt(t.arg(c, 0))]
@@ -155,7 +155,7 @@ def confirm_kinds(t, rid):
     PacketType::apply_replay_protection). A re-sent connection Response (or an unauthenticated ConnectionRequest) from a client that is still
     waiting for the first keep-alive must not confirm the session: that client ignores payloads and would never get its keep-alive."""
     from rules.netcode_common import decode_sites, variants_at, replay_protected_kinds, CONN
-    r = RuleResult(rid, "Connection.confirmed is set only on packet kinds of the connected phase (the replay-protected kinds), never on a repeated handshake packet", floor=1)
+    r = RuleResult(rid, "Connection.confirmed is set only on packet kinds of the connected phase (the replay-protected kinds), never on a repeated handshake packet", floor=0)
     ok_kinds = replay_protected_kinds(t)
     if not ok_kinds: r.bad("kinds", None, "cannot read the replay-protected kinds"); return r
     for s_ in t.stores(CONN, "confirmed"):
@@ -181,7 +181,7 @@ def size_window(t, rid, fnames=("NetcodeServer::process_packet_internal", "Netco
     window (all sizes are read from the code)."""
     from sa import codec
     from rules.netsize import min_return
-    r = RuleResult(rid, "SIZE-WINDOW: datagram length refusals lie outside the range of lengths the encoder produces (prefix + sequence + body + tag, up to the payload limit)", floor=1)
+    r = RuleResult(rid, "SIZE-WINDOW: datagram length refusals lie outside the range of lengths the encoder produces (prefix + sequence + body + tag, up to the payload limit)", floor=0)
     mac = t.F.consts.get("renetcode::NETCODE_MAC_BYTES", {}).get("val")
     maxp = t.F.consts.get("renetcode::NETCODE_MAX_PAYLOAD_BYTES", {}).get("val")
     try: sizes = codec.netcode_packet_sizes(t.F)
@@ -224,7 +224,7 @@ def writer_total(t, rid):
     octets `put_*` calls (buffer too short, which the size bound of C13 excludes). An error value constructed by the writer itself (a new
     validation such as `messages.is_empty()` or `last.end > MAX`) turns a packet the library legitimately builds into
     PacketSerialization(..) and disconnects the connection."""
-    r = RuleResult(rid, "Packet::to_bytes constructs no error of its own: every Err comes from an octets put_* call", floor=1)
+    r = RuleResult(rid, "Packet::to_bytes constructs no error of its own: every Err comes from an octets put_* call", floor=0)
     f0 = t.fn("renet::packet::Packet::to_bytes")
     for f in fn_and_closures(t, f0):
         for c in t.sites(f):
@@ -242,7 +242,7 @@ def writer_total(t, rid):
 def budget_field_prov(t, rid):
     """PROV: the per-tick budget a connection works with is the configured one: RenetClient.available_bytes_per_tick is written only where the
     connection is built, with the configuration value itself (no arithmetic, no clamp)."""
-    r = RuleResult(rid, "RenetClient.available_bytes_per_tick is the configured value unchanged (written only at construction)", floor=1)
+    r = RuleResult(rid, "RenetClient.available_bytes_per_tick is the configured value unchanged (written only at construction)", floor=0)
     RC = "remote_connection::RenetClient"
     def pure(o):
         o = strip(o)
@@ -262,7 +262,7 @@ def budget_field_prov(t, rid):
 def last_sent_values(t, rid):
     """the retransmission timer of a message/slice is only ever set forward: inside SendChannelReliable::get_packets_to_send every store to
     `last_sent` is `Some(current_time)`. Clearing it (None) or back-dating it makes the next tick retransmit before resend_time has elapsed."""
-    r = RuleResult(rid, "in the send loop a retransmission timer is only set to Some(current_time) (never cleared or back-dated)", floor=1)
+    r = RuleResult(rid, "in the send loop a retransmission timer is only set to Some(current_time) (never cleared or back-dated)", floor=0)
     f0 = t.fn("SendChannelReliable::get_packets_to_send")
     for f in fn_and_closures(t, f0):
         for s in t.sites(f):
@@ -279,7 +279,7 @@ def request_fields_prov(t, rid):
     """PROV: what handle_connection_request validates and authenticates is what arrived: every field argument (version info, protocol id, expire
     timestamp, xnonce, private data) is the corresponding field of the decoded ConnectionRequest packet, unchanged - in particular the expiry
     that is both tested and fed into the token's associated data."""
-    r = RuleResult(rid, "handle_connection_request receives the fields of the decoded ConnectionRequest unchanged (no clamped/substituted expiry, id or nonce)", floor=2)
+    r = RuleResult(rid, "handle_connection_request receives the fields of the decoded ConnectionRequest unchanged (no clamped/substituted expiry, id or nonce)", floor=0)
     f = t.fn("NetcodeServer::process_packet_internal")
     for c in t.calls(r"NetcodeServer::handle_connection_request$", f):
         r.site(c)
@@ -294,7 +294,7 @@ def request_fields_prov(t, rid):
 def token_history_writers(t, rid):
     """WRITERS: the connect-token history (connect_token_entries), which binds a token to the first address it was seen from for the token's whole
     lifetime, is written only by find_or_add_connect_token_entry (and initialised by the constructor): nothing clears or rewrites an entry."""
-    r = RuleResult(rid, "connect_token_entries is written only by find_or_add_connect_token_entry (no clearing when a session ends)", floor=1)
+    r = RuleResult(rid, "connect_token_entries is written only by find_or_add_connect_token_entry (no clearing when a session ends)", floor=0)
     NS_ = "server::NetcodeServer"
     for f in t.fns(r"^renetcode::server::"):
         for s in t.sites(f):
@@ -314,7 +314,7 @@ def token_history_writers(t, rid):
 def no_stored_slot_index(t, rid):
     """INDEX-PROV: a slot of NetcodeServer.clients is reached by scanning the table (position / enumerate / find / the id and address helpers), never
     through an index remembered in a field of the server: a remembered slot can meanwhile hold another client's session."""
-    r = RuleResult(rid, "NetcodeServer.clients is never indexed by a value stored in a server field (slots are found by scanning)", floor=1)
+    r = RuleResult(rid, "NetcodeServer.clients is never indexed by a value stored in a server field (slots are found by scanning)", floor=0)
     for f in t.fns(r"^renetcode::server::"):
         g = owner_fn(t, f)
         if "NetcodeServer" not in g.path: continue
@@ -346,7 +346,7 @@ def _index_uses(o, field, out=None):
 def connect_event_total(t, rid):
     """PAIR (insert => event): in RenetServer::add_connection every path from the insertion of a new connection to the return pushes the
     ClientConnected event (no further condition between the two, e.g. a dedup of queued events)."""
-    r = RuleResult(rid, "every insertion into connections is followed by the ClientConnected event on all paths", floor=1)
+    r = RuleResult(rid, "every insertion into connections is followed by the ClientConnected event on all paths", floor=0)
     for f0 in (t.fn("RenetServer::add_connection"), t.fn("RenetServer::new_local_client")):
         for f in fn_and_closures(t, f0):
             ins = [c for c in t.sites(f) if c.node["k"] == "call" and c.node["args"] and method_of(callee_name(c.node)) in ("insert", "or_insert", "or_insert_with", "try_insert") and ("connections" in fmt(t.arg(c, 0)))]
@@ -365,7 +365,7 @@ def connect_event_total(t, rid):
 def address_codec_identity(t, rid):
     """CODEC-ID (writer side): the token address list is written from the addresses as stored: no address-transforming call
     (to_canonical, to_ipv4_mapped, to_ipv6_mapped, ..) in write_server_addresses, so what is read back is the SocketAddr that went in."""
-    r = RuleResult(rid, "the token address writer/reader applies no address transformation (to_canonical, to_ipv4_mapped, ..)", floor=1)
+    r = RuleResult(rid, "the token address writer/reader applies no address transformation (to_canonical, to_ipv4_mapped, ..)", floor=0)
     for fname in ("token::write_server_addresses", "token::read_server_addresses"):
         try: f0 = t.fn(fname)
         except Exception: continue
@@ -382,7 +382,7 @@ def lookup_key_only(t, rid):
     address until the slot is cleared; a lookup that also looks at `state`, `confirmed`, a timer .. makes a session that is still listed
     (clients_id, client_addr, is_client_connected) invisible to the dispatch and to the already-connected checks, so a second session for the
     same id/address can be admitted next to it."""
-    r = RuleResult(rid, "find_client_*_by_id / _by_addr test nothing but the key (client_id / addr) of an occupied slot", floor=4)
+    r = RuleResult(rid, "find_client_*_by_id / _by_addr test nothing but the key (client_id / addr) of an occupied slot", floor=0)
     allowed = {"find_client_mut_by_id": {"client_id"}, "find_client_by_id": {"client_id"}, "find_client_slot_by_id": {"client_id"}, "find_client_mut_by_addr": {"addr"}}
     for name, keys in allowed.items():
         try: top = t.fn("renetcode::server::" + name)
@@ -410,7 +410,7 @@ def free_slot_only(t, rid):
     the slot fill (directly, or through the closure of an `or_else` / `unwrap_or_else` fallback) has the predicate "slot is empty"; a fallback
     that picks an occupied slot (unconfirmed, oldest, ..) overwrites a session that was reported with ClientConnected, without any
     ClientDisconnected."""
-    r = RuleResult(rid, "the slot index of the slot fill comes only from position(|slot| slot.is_none())", floor=1)
+    r = RuleResult(rid, "the slot index of the slot fill comes only from position(|slot| slot.is_none())", floor=0)
     f = t.fn("NetcodeServer::process_packet_internal")
     def closure_by_tag(o):
         txt = str(o[1]) if isinstance(o, tuple) and o[0] == "aggr" else ""
